@@ -64,7 +64,7 @@ theorem shareLoop_sends (a : List Nat) (me : Nat) : ∀ (k i : Nat) (outs : List
     every other participant `i` the private message carrying `a(i+1)`; the dealer keeps `vecOfPoly size a` -/
 theorem start_outputs (size threshold me : Nat) (seed : Bytes) (s' : St O) (outs : List Out)
     (h : Dkg.start ({ size := size, threshold := threshold, me := me, dealer := me } : St O) seed = (s', outs, .ok)) :
-    ∃ a, O.genPoly seed threshold = some a ∧ s'.vA = some (O.vecOfPoly size a) ∧
+    ∃ a, O.genPoly seed threshold = some a ∧ s'.a = a ∧ s'.vA = some (O.vecOfPoly size a) ∧
       Out.bcast (tagVerifVec :: O.vecBytes a) ∈ outs ∧
       ∀ i, i < size → i ≠ me → Out.send i (tagShare :: O.writeScalar (O.polyEval a (i + 1))) ∈ outs := by
   unfold Dkg.start Dkg.startBody Dkg.generateShares at h
@@ -82,7 +82,7 @@ theorem start_outputs (size threshold me : Nat) (seed : Bytes) (s' : St O) (outs
       simp only [Prod.mk.injEq, and_true] at h
       obtain ⟨hs, ho⟩ := h
       have sl := shareLoop_sends (O := O) a me size 1 [] 0 o x hl
-      refine ⟨a, rfl, by rw [← hs], ?_, ?_⟩
+      refine ⟨a, rfl, by rw [← hs], by rw [← hs], ?_, ?_⟩
       · rw [← ho]; exact List.mem_append_right _ (List.mem_singleton.2 rfl)
       · intro i hi hne
         rw [← ho]
